@@ -965,7 +965,21 @@ impl Element {
                         // this SHORT-NAME element might be newly created, in which case there is no previous path
                         if self.character_data().is_some() {
                             if let Some(parent) = self.parent()? {
-                                prev_path = Some(parent.path()?);
+                                let path = parent.path()?;
+                                // the new name must not produce a path that is already used by a different element
+                                if let (Some(old_name), CharacterData::String(new_name)) = (parent.item_name(), &chardata) {
+                                    if let Some(base_path) = path.strip_suffix(&old_name) {
+                                        if *new_name != old_name
+                                            && model.get_element_by_path(&format!("{base_path}{new_name}")).is_some()
+                                        {
+                                            return Err(AutosarDataError::DuplicateItemName {
+                                                element: parent.element_name(),
+                                                item_name: new_name.clone(),
+                                            });
+                                        }
+                                    }
+                                }
+                                prev_path = Some(path);
                             }
                         }
                     };
